@@ -16,7 +16,9 @@ type Env struct {
 	Root   string // scenario directory (HOME lives here)
 	BinDir string // directory holding the git-lfs binary under test
 	Extra  []string
-	clock  int64
+	// CommitTZ is the UTC offset commits made through GitDate carry ("+0000" when empty).
+	CommitTZ string
+	clock    int64
 }
 
 type Result struct {
@@ -144,7 +146,11 @@ func (e *Env) Git(dir string, args ...string) Result {
 
 // GitDate runs git with explicit author/committer dates (unix seconds).
 func (e *Env) GitDate(dir string, unix int64, args ...string) Result {
-	d := fmt.Sprintf("%d +0000", unix)
+	tz := e.CommitTZ
+	if tz == "" {
+		tz = "+0000"
+	}
+	d := fmt.Sprintf("%d %s", unix, tz)
 	return e.RunIn(dir, []string{"GIT_AUTHOR_DATE=" + d, "GIT_COMMITTER_DATE=" + d}, nil, 0, "git", args...)
 }
 
